@@ -9,8 +9,7 @@
 -/
 import AHP.Model.Search
 import AHP.Lemmas.Coll
-namespace AHP
-
+namespace AHP.G3
 mutual
 def Node.preorder : Node → List Node
   | .mk e ks => .mk e ks :: preorderL ks
@@ -536,4 +535,4 @@ theorem first_then_rest (c : Str) (rest : List Str) (xs : List Node) :
   · exact this
 
 
-end AHP
+end AHP.G3
